@@ -50,6 +50,10 @@ def act_space(kind: str) -> spaces.Space:
         return spaces.Discrete(3)
     if kind == "box":
         return spaces.Box(-1.0, 1.0, (2,), np.float32)
+    if kind == "box_asym3":
+        # three components: the critics of DDPG / TD3 layer-normalise the action vector when the encoder is a layer-normed
+        # MLP, which leaves NO information in a 1-d action and only the ordering of the components in a 2-d one
+        return spaces.Box(np.array([-2.0, 0.0, -1.0], np.float32), np.array([0.5, 3.0, 0.25], np.float32), (3,), np.float32)
     if kind == "box_asym":
         return spaces.Box(np.array([-2.0, 0.0], np.float32), np.array([0.5, 3.0], np.float32), (2,), np.float32)
     if kind == "multidiscrete":
